@@ -10,7 +10,8 @@ PROP = "C16"
 RULE = ("cases = schedules: 2..5 creators of one destination spread over 1..4 OS processes (creators of one process are threads with their own runtime), each with a write function of 0..3 chunks that "
         "succeeds or fails; a decision list releases one creator at a time by one protocol step (lock file opened, lock acquired, destination checked, temp opened, each chunk, write function returned, "
         "rename, temp removed, lock dropped, lock file unlinked) or SIGKILLs a process (all its creators die: before/after temp creation, mid-write, before rename, while blocked in flock); creators blocked "
-        "in flock are woken by the kernel in whatever order it chooses and the trace records what happened. After the decisions every live creator runs to completion, then a fresh creator whose write "
+        "in flock are woken by the kernel in whatever order it chooses and the trace records what happened; a decision may also CANCEL one creator (its future is dropped at its next await that is not ready - while waiting for the lock, inside the write function, "
+        "or at any other await of the routine - while its runtime lives on, optionally with a busy blocking pool that is released later). After the decisions every live creator runs to completion, then a fresh creator whose write "
         "function succeeds is started (retry clause). After every step the three paths are observed (existence, full contents). The observed trace is replayed in the Coq model (conformance: same step "
         "taken, same observable file state) and the property is decided on the observations by a checker evaluated in Coq. non-trivial = a creator found the lock held when it arrived, or a kill / write failure happened while another creator was active")
 TRUSTED = ["the cfg(samply_verif) hook verif_step in wholesym/src/file_creation.rs (reports each completed step, blocks until released)",
@@ -18,7 +19,7 @@ TRUSTED = ["the cfg(samply_verif) hook verif_step in wholesym/src/file_creation.
            "Linux flock/rename/unlink semantics as modelled (locks belong to inodes; rename is atomic); the model does not cover power loss, only process death",
            "instants between two protocol steps are observed, not instants inside one system call"]
 ASSUMPTIONS = ["no other actor deletes the destination while creators run (external deletion is outside the property's quantifier)",
-               "cancellation of the future is represented by process death at the same point (both close the descriptors and clean nothing up)"]
+               "cancellation of a creator's future (dropped by the harness at the next await that is not ready, the creator's runtime and blocking pool living on) is the model's Kill event for that creator: both close the descriptors and clean nothing up"]
 
 LABELS = ["lock-opened", "locked", "dest-missing", "dest-exists", "part-opened", "chunk", "write-ok", "write-err", "renamed", "rename-failed", "part-removed",
           "fail-unlocked", "unlocked", "lock-unlinked", "ex-unlocked", "ex-lock-unlinked", "result-existing", "result-written", "result-failed"]
@@ -52,9 +53,25 @@ def gen(tier, rng, scale):
         for p in range(nproc):
             if not any(cr[1] == p for cr in creators):
                 creators[rng.below(n)][1] = p
-        style = rng.below(6)
+        style = rng.below(7)
         decisions = []
-        if style >= 4:
+        if style == 6:
+            # cancellation: creator 1 (its write function succeeds; the blocking pool of its runtime is busy until released) is run up to some
+            # point - most often right up to the end of its write - and then CANCELLED (its future is dropped at the next await that is not
+            # ready); other creators take over, the pool is released at some point, everybody finishes
+            creators[0][3] = 1
+            creators[0].append(1)
+            nsteps = 5 + creators[0][2]
+            k = nsteps if rng.chance(1, 2) else rng.range(1, nsteps)
+            decisions += [[2, 1]] * k
+            decisions.append([3, 1])
+            for _ in range(rng.range(0, 3)):
+                c = rng.range(2, n)
+                decisions += [[2, c]] * rng.range(1, 6)
+            decisions.append([4, 1])
+            for _ in range(rng.range(0, 20)):
+                decisions.append([0, rng.below(64)] if rng.chance(9, 10) else [3, rng.range(1, n)])
+        elif style >= 4:
             # staggered arrivals: bursts of steps of one creator out of a window of admitted creators; later creators are admitted while earlier ones are mid-protocol
             if rng.chance(1, 2):
                 creators[0][3] = 0
@@ -71,7 +88,9 @@ def gen(tier, rng, scale):
                 if rng.chance(1, 30):
                     decisions.append([1, rng.below(8)])
         for _ in range(rng.range(5, 60) if style < 4 else 0):
-            if rng.chance(1, 14 if style != 3 else 6):
+            if rng.chance(1, 30):
+                decisions.append([3, rng.range(1, n)])          # cancel that creator's future (at its next await that is not ready)
+            elif rng.chance(1, 14 if style != 3 else 6):
                 decisions.append([1, rng.below(8)])
             else:
                 # style 0: uniformly random; 1: sticky (keep running the same creator for a while); 2: prefer the newest arrival; 3: kill-heavy
@@ -143,11 +162,16 @@ def run_schedule(binp, case, d):
     q = queue.Queue()
     procs = {}
     by_proc = {}
-    for c, p, n, ok in creators:
-        by_proc.setdefault(p, []).append((c, n, ok))
+    gated = set()
+    for cr in creators:
+        c, p, n, ok = cr[:4]
+        g = len(cr) > 4 and cr[4]
+        if g:
+            gated.add(c)
+        by_proc.setdefault(p, []).append((c, n, ok, g))
 
     def spawn(p, specs):
-        pr = subprocess.Popen([binp, "child", d] + ["%d:%d:%s" % (c, n, "ok" if ok else "err") for c, n, ok in specs],
+        pr = subprocess.Popen([binp, "child", d] + ["%d:%d:%s%s" % (c, n, "ok" if ok else "err", ":gate" if g else "") for c, n, ok, g in specs],
                               stdin=subprocess.PIPE, stdout=subprocess.PIPE, stderr=subprocess.DEVNULL, bufsize=0)
         procs[p] = pr
 
@@ -161,7 +185,8 @@ def run_schedule(binp, case, d):
     ready = {}       # c -> label it is paused at
     proc_of = {}
     trace = []
-    for c, p, n, ok in creators:
+    for cr in creators:
+        c, p = cr[:2]
         state[c] = "unstarted"
         proc_of[c] = p
     for p, specs in by_proc.items():
@@ -188,8 +213,14 @@ def run_schedule(binp, case, d):
                 log(["run", c, lab])
         elif toks[1] == "result":
             r = toks[2].split(":")[0]
-            state[c] = "done"
-            log(["result", c, r])
+            if r == "cancelled":
+                # the creator's future was dropped: it will take no further step (its runtime lives on)
+                state[c] = "dead"
+                ready.pop(c, None)
+                log(["kill", [c]])
+            else:
+                state[c] = "done"
+                log(["result", c, r])
         return c
 
     def wait_for(c, timeout):
@@ -227,15 +258,42 @@ def run_schedule(binp, case, d):
             first = False
             handle(p, line)
 
-    def go(c):
-        was = ready.pop(c)
-        state[c] = "running"
+    def tell(c, word):
         pr = procs[proc_of[c]]
         try:
-            pr.stdin.write(("%d go\n" % c).encode())
+            pr.stdin.write(("%d %s\n" % (c, word)).encode())
             pr.stdin.flush()
         except Exception:
             pass
+
+    def release(c):
+        # the blocking pool of that creator's runtime becomes free: whatever was queued there runs now
+        if c in gated and proc_of[c] not in dead_procs:
+            gated.discard(c)
+            tell(c, "release")
+            time.sleep(0.05)
+            log(["release", c])
+
+    def cancel(c):
+        if state.get(c) == "ready":
+            was = ready.pop(c)
+            state[c] = "running"
+            tell(c, "cancel")
+            if not wait_for(c, 20.0):
+                raise Stuck("creator %d gave no report after a cancellation request at %s" % (c, was))
+            flush_deferred()
+        elif state.get(c) == "blocked":
+            tell(c, "cancel")
+            if not wait_for(c, 20.0):
+                raise Stuck("creator %d (waiting for the lock) gave no report after a cancellation request" % c)
+            flush_deferred()
+
+    def go(c):
+        if c in gated and ready.get(c) == "write-ok":
+            release(c)          # a creator that goes on past its write needs its runtime's pool if the routine uses it
+        was = ready.pop(c)
+        state[c] = "running"
+        tell(c, "go")
         okr = wait_for(c, 0.12 if was == "lock-opened" else 20.0)
         if not okr:
             if was == "lock-opened":
@@ -275,12 +333,20 @@ def run_schedule(binp, case, d):
                 if k in ready:
                     go(k)
                 continue
+            if kind == 3:
+                cancel(k)
+                continue
+            if kind == 4:
+                release(k)
+                continue
             if not rs:
                 if any(s == "blocked" for s in state.values()):
                     drain(0.3)
                 continue
             go(rs[k % len(rs)])
         # finish phase
+        for c in sorted(gated):
+            release(c)
         idle_rounds = 0
         while any(s in ("ready", "blocked", "running") for s in state.values()):
             drain(0.02 if any(s == "blocked" for s in state.values()) else 0)
@@ -301,7 +367,7 @@ def run_schedule(binp, case, d):
             c = RETRY_ID
             state[c] = "unstarted"
             proc_of[c] = 1000
-            spawn(1000, [(c, 2, 1)])
+            spawn(1000, [(c, 2, 1, 0)])
             t_end = time.time() + 20
             while state[c] == "unstarted":
                 if time.time() > t_end:
@@ -337,7 +403,7 @@ def _coq_content(c):
 
 
 def _coq_trace(case, trace):
-    plans = K.coq_list(["(%d, (%d, %s))" % (c, n, "true" if ok else "false") for c, p, n, ok in case["creators"]] + ["(%d, (2, true))" % RETRY_ID])
+    plans = K.coq_list(["(%d, (%d, %s))" % (cr[0], cr[2], "true" if cr[3] else "false") for cr in case["creators"]] + ["(%d, (2, true))" % RETRY_ID])
     evs = []
     for ev, obs in trace:
         o = "(%s, %s, %s)" % (_coq_content(obs[0]), _coq_content(obs[1]), "true" if obs[2] else "false")
@@ -345,6 +411,8 @@ def _coq_trace(case, trace):
             e = "(TRun %d %d)" % (ev[1], LAB.get(ev[2], 99))
         elif ev[0] == "kill":
             e = "(TKill %s)" % K.coq_list([str(c) for c in ev[1]])
+        elif ev[0] == "release":
+            e = "(TKill [])"        # nothing happens in the model when a blocking pool becomes free; the observation is compared all the same
         elif ev[0] == "result":
             e = "(TRun %d %d)" % (ev[1], LAB.get("result-" + ev[2], 99))
         else:
@@ -464,7 +532,7 @@ def known(case):
 
 
 def describe(case):
-    d = {"creators [id, process, chunks, write ok]": case["creators"], "decisions": case["items"][:80]}
+    d = {"creators [id, process, chunks, write ok(, busy blocking pool)]": case["creators"], "decision kinds": "0 run the k-th ready creator one step, 1 kill a process, 2 run creator k one step, 3 cancel creator k, 4 release creator k's blocking pool", "decisions": case["items"][:80]}
     t = case.get("_trace")
     if isinstance(t, list):
         d["trace"] = [[ev, {"dest": o[0], "part": o[1], "lock": o[2]}] for ev, o in t[:200]]
